@@ -4,6 +4,7 @@ package pure
 
 import (
 	"fmt"
+	"github.com/streamingfast/bstream"
 	"sort"
 	"strings"
 	"testing"
@@ -71,6 +72,25 @@ func hashesOtherViews(g gdsl.Graph, want map[string]string) *ev.Failure {
 			return ev.Failf("nondeterministic/query-order", "module %s hashes to %s when queried in reverse order, %s in list order", pb.Modules[i].Name, got, want[pb.Modules[i].Name])
 		}
 	}
+	// the identifier is a function of the module and its ancestors only: not of the chain's first streamable block,
+	// a process-wide setting that differs between deployments (and between a tier1 and a chain-agnostic tier2)
+	saved := bstream.GetProtocolFirstStreamableBlock
+	for _, fsb := range []uint64{3, 1000} {
+		bstream.GetProtocolFirstStreamableBlock = fsb
+		mh2 := manifest.NewModuleHashes()
+		for _, m := range pb.Modules {
+			h, err := mh2.HashModule(pb, m, mg)
+			if err != nil {
+				bstream.GetProtocolFirstStreamableBlock = saved
+				return ev.Failf("hash-error", "%v", err)
+			}
+			if got := fmt.Sprintf("%x", []byte(h)); got != want[m.Name] {
+				bstream.GetProtocolFirstStreamableBlock = saved
+				return ev.Failf("nondeterministic/first-streamable-block", "module %s (initial block %d) hashes to %s in a process whose first streamable block is %d, %s when it is 0", m.Name, m.InitialBlock, got, fsb, want[m.Name])
+			}
+		}
+	}
+	bstream.GetProtocolFirstStreamableBlock = saved
 	for _, m := range g.Mods {
 		if m.Kind != "map" {
 			continue
